@@ -11,12 +11,20 @@ import (
 
 var maximumPositionalArguments = 5
 
-// names which method arguments can't have: they are shadowing imported packages or method receiver
+// names which method arguments can't have: they are shadowing imported packages, method receiver, or variables and
+// predeclared identifiers which body of the method uses
 var reservedArgumentNames = map[string]string{
-	"errors":  "errs",
-	"reflect": "reflectArg",
-	"tl":      "tlArg",
-	"c":       "cArg",
+	"errors":       "errs",
+	"reflect":      "reflectArg",
+	"tl":           "tlArg",
+	"c":            "cArg",
+	"responseData": "responseDataArg",
+	"err":          "errArg",
+	"resp":         "respArg",
+	"ok":           "okArg",
+	"nil":          "nilArg",
+	"false":        "falseArg",
+	"panic":        "panicArg",
 }
 
 // argumentName returns name of method argument for schema parameter
